@@ -122,6 +122,16 @@ func (t *tr) evCall(c *ast.CallExpr) []Term {
 		return t.havocResults(c)
 	}
 	con := t.V.CS.Funcs[ct.key]
+	// contracts specialised by the static type of the first argument: KEY[T]
+	specialised := false
+	if len(c.Args) > 0 && ct.recv == nil {
+		if at := t.typeOf(c.Args[0]); at != nil {
+			if c2, ok := t.V.CS.Funcs[ct.key+"["+typeKey(at)+"]"]; ok {
+				con = c2
+				specialised = true
+			}
+		}
+	}
 	if con == nil && ct.lit != nil {
 		// immediately invoked literal without contract: inline it
 		return t.inlineLit(ct.lit, c.Args, c.Pos())
@@ -142,7 +152,7 @@ func (t *tr) evCall(c *ast.CallExpr) []Term {
 		_, exprIsPtr := rt.Underlying().(*types.Pointer)
 		if isInterface(rt) {
 			recvTerm = t.ev(ct.recv)
-			t.assert(neq(recvTerm, intLit(0)), "safety/nil", "", c.Pos(), "method call on nil interface")
+			t.safety(neq(recvTerm, intLit(0)), "safety/nil", c.Pos(), "method call on nil interface")
 		} else if ct.recvPtr && !exprIsPtr {
 			if con.Flags["recv_by_value"] == "true" || len(con.clauses("modifies")) == 0 && !con.NoFrame {
 				// callee does not modify anything: pass a fresh cell holding a copy, no write-back
@@ -152,7 +162,7 @@ func (t *tr) evCall(c *ast.CallExpr) []Term {
 			}
 		} else if !ct.recvPtr && exprIsPtr {
 			p := t.ev(ct.recv)
-			t.assert(neq(p, intLit(0)), "safety/nil", "", c.Pos(), "method call through nil pointer")
+			t.safety(neq(p, intLit(0)), "safety/nil", c.Pos(), "method call through nil pointer")
 			recvTerm = t.loadPtr(p, c.Pos())
 		} else {
 			recvTerm = t.ev(ct.recv)
@@ -189,6 +199,12 @@ func (t *tr) evCall(c *ast.CallExpr) []Term {
 					wbs = append(wbs, wb)
 					continue
 				}
+			}
+			if i == 0 && specialised {
+				v0 := t.ev(a)
+				v0.T = t.typeOf(a)
+				args = append(args, v0)
+				continue
 			}
 			args = append(args, t.evTo(a, params.At(i).Type()))
 		}
@@ -785,9 +801,9 @@ func (t *tr) evBuiltin(name string, c *ast.CallExpr) []Term {
 			cp := n
 			if len(c.Args) > 2 {
 				cp = t.ev(c.Args[2])
-				t.assert(and(le(intLit(0), n), le(n, cp)), "safety/make", "", c.Pos(), "make: len out of range")
+				t.safety(and(le(intLit(0), n), le(n, cp)), "safety/make", c.Pos(), "make: len out of range")
 			} else {
-				t.assert(le(intLit(0), n), "safety/make", "", c.Pos(), "make: negative length")
+				t.safety(le(intLit(0), n), "safety/make", c.Pos(), "make: negative length")
 			}
 			arr := t.alloc()
 			es := W.sortOf(u.Elem())
